@@ -13,7 +13,10 @@ class C19(BaseCheck):
           'so re-reads race with further changes) and a history of 10-150 mutations: member create/delete '
           '(fresh sequential names), non-member children, bursts without yielding, deletion of the watched '
           'path with its children and later re-creation with the same or different child names, members '
-          'vanishing between listing and reading, consumer callbacks raising on a seeded schedule, concurrent '
+          'vanishing between listing and reading (and coming back under the same name), blips (the path and its '
+          'children deleted and back, wholly or partly under the same names, within a read round trip, so an old '
+          'children watch survives while the data watch sees the path missing), consumer callbacks raising on a '
+          'seeded schedule, concurrent '
           'get_members() iterations. At every quiescent point (no watch event pending, no read in flight, '
           'notification queue empty) the consumer\'s set - joins and leaves applied in delivery order - must '
           'equal the members under the path (name and endpoint), and per member joins and leaves must '
@@ -26,9 +29,12 @@ class C19(BaseCheck):
              'scales.loadbalancer.zookeeper:ServerSet._safe_zk_node_to_member')
   REQUIRED_ANCHORS = ANCHORS
   REQUIRED_CLASSES = ('parent-deleted', 'parent-recreated-same-names', 'parent-recreated-different-names',
-                      'callback-raised', 'burst', 'non-member-child', 'path-created-later', 'vanished-before-read', 'fast-recreate')
+                      'callback-raised', 'burst', 'non-member-child', 'path-created-later', 'vanished-before-read', 'fast-recreate',
+                      'same-name-recreated', 'blip')
   ASSUMPTIONS = ('member znodes get fresh sequential names within one incarnation of the watched path (as '
-                 'ZooKeeper sequential nodes do); names can repeat only after the path itself was re-created',
+                 'ZooKeeper sequential nodes do); a name is used again only after the path itself was re-created, '
+                 'or for a node that was deleted before the client could read it and is registered again with the '
+                 'same data (a service with a fixed node name re-registering after a blip)',
                  'member data is well-formed JSON')
   QUICK_CASES = 960
   THOROUGH_CASES = 60000
@@ -70,6 +76,7 @@ class C19(BaseCheck):
     else:
       classes.add('path-created-later')
     consumer = {}
+    artificial = set()
     log = []
     raise_p = rng.choice([0.0, 0.0, 0.1, 0.3])
     stats = {'joins': 0, 'leaves': 0, 'callback_errors': 0}
@@ -84,7 +91,9 @@ class C19(BaseCheck):
       stats['joins'] += 1
       log.append(('join', m.name, env.now))
       out.obligations += 1
-      if m.name in consumer:
+      if m.name in artificial:
+        artificial.discard(m.name)      # the harness had put it there when it re-synchronised its model
+      elif m.name in consumer:
         viol('alternation:double-join', 'member %s reported as joining twice without a leave in between' % m.name)
       consumer[m.name] = (m.service_endpoint.host, m.service_endpoint.port)
       if rng.random() < raise_p:
@@ -131,6 +140,12 @@ class C19(BaseCheck):
         return
       t = truth()
       out.obligations += 1
+      # members the harness itself added to its model after a reported miss were never announced by
+      # the code under test, so no leave can be expected for them either
+      for n_ in list(artificial):
+        if n_ not in t:
+          artificial.discard(n_)
+          consumer.pop(n_, None)
       if consumer != t:
         missing = sorted(set(t) - set(consumer))
         phantom = sorted(set(consumer) - set(t))
@@ -138,9 +153,12 @@ class C19(BaseCheck):
         viol('membership:differs', '%s: consumer holds %d members, %d are present; missing %r, phantom %r, '
              'stale data %r' % (where, len(consumer), len(t), missing[:4], phantom[:4], stale[:4]),
              {'missing': bool(missing), 'phantom': bool(phantom), 'stale': bool(stale),
-              'after_parent_delete': 'parent-deleted' in classes, 'unobserved_recreate': unobserved[0]},
+              'after_parent_delete': 'parent-deleted' in classes, 'unobserved_recreate': unobserved[0],
+              'only_recreated_names_missing': bool(missing) and not phantom and not stale and
+              all(m_ in recreated for m_ in missing)},
              {'log_tail': log[-10:], 'zk_callback_errors': zk.callback_errors[-3:], 'greenlet_errors': env.errors[-2:]})
         # resynchronise so that later checks judge later behaviour
+        artificial.update(missing)
         consumer.clear()
         consumer.update(t)
 
@@ -148,6 +166,7 @@ class C19(BaseCheck):
     deleted_at = [None]
     unobserved = [False]
     reused = set()
+    recreated = set()      # names that vanished before being read and came back with the same data
     check('after start')
     nops = rng.choice([10, 30, 80, 150])
     saved_names = None
@@ -178,10 +197,20 @@ class C19(BaseCheck):
         classes.add('vanished-before-read')
         counter[0] += 1
         nm = path + '/member_%010d' % counter[0]
-        zk.create_node(nm, member_data())
+        data_ = member_data()
+        zk.create_node(nm, data_)
         if lat_cls != 'zero':
           gevent.sleep(rng.random() * zk.latency[1] * 0.8)
         zk.delete_node(nm)
+        if rng.random() < 0.5:
+          # ... and it comes back under the same name with the same data (a service that registers a
+          # fixed node name and re-registers after a blip), possibly while the old read is in flight
+          classes.add('same-name-recreated')
+          if lat_cls != 'zero' and rng.random() < 0.7:
+            gevent.sleep(rng.random() * zk.latency[1] * 1.2)
+          if path in zk.nodes:
+            zk.create_node(nm, data_)
+            recreated.add(nm.rsplit('/', 1)[1])
       elif k < 0.88:
         if path in zk.nodes:
           saved_names = sorted(truth())
@@ -209,6 +238,28 @@ class C19(BaseCheck):
       elif k < 0.92:
         g = gevent.spawn(ss.get_members)
         classes.add('concurrent-get-members')
+      elif k < 0.96 and path in zk.nodes:
+        # a blip: the path and everything below it goes away and is back (wholly or partly under the
+        # same names, with the same data) before the client's reads after the deletion complete
+        classes.add('blip')
+        saved = [(n_, zk.nodes[path + '/' + n_][0]) for n_ in sorted(truth())]
+        zk.delete_node(path, recursive=True)
+        classes.add('parent-deleted')
+        deleted_at[0] = env.now
+        if lat_cls != 'zero' and rng.random() < 0.7:
+          gevent.sleep(rng.random() * zk.latency[1] * rng.choice([0.3, 1.0, 2.5]))
+        unobserved[0] = True
+        classes.add('fast-recreate')
+        zk.create_node(path)
+        keep = saved[:rng.randint(0, len(saved))] if rng.random() < 0.7 else []
+        for n_, d_ in keep:
+          zk.create_node(path + '/' + n_, d_)
+          if lat_cls != 'zero' and rng.random() < 0.3:
+            gevent.sleep(rng.random() * zk.latency[1])
+        if keep:
+          classes.add('parent-recreated-same-names')
+        for _i in range(rng.choice([0, 0, 1, 2])):
+          add_member()
       # yield or not between mutations
       r = rng.random()
       if r < 0.3:
